@@ -233,7 +233,7 @@ def verify(contract, repo, tier="quick"):
                     except Exception as e:
                         d["replay_error"] = "%s: %s" % (type(e).__name__, e)
                 d["case"] = case.label
-            if d["verdict"] == "unsat" and tier == "thorough":
+            if d["verdict"] == "unsat" and tier == "thorough" and kind not in ("lemma",):
                 # vacuity: the premises alone must be satisfiable
                 s3 = z3.Solver(); s3.set("timeout", 5000); s3.add(*hyps)
                 if s3.check() == z3.unsat:
